@@ -318,10 +318,14 @@ def cli_batch(res):
     try:
         n = 0
         for src in EXTRA_PROGRAMS[:9]:
-            for config in c01.CONFIGS:
+            # (the two options together, in either order: every name is kept - the keep file cannot take that back)
+            for config in c01.CONFIGS + ['keep_all+file', 'file+keep_all']:
                 n += 1
                 flags = {'default': [], 'keep_all': ['--keep-all-names'],
-                         'keep_file': ['--keep-names-from-file', c01.keep_file_path()]}[config]
+                         'keep_file': ['--keep-names-from-file', c01.keep_file_path()],
+                         'keep_all+file': ['--keep-all-names', '--keep-names-from-file', c01.keep_file_path()],
+                         'file+keep_all': ['--keep-names-from-file', c01.keep_file_path(), '--keep-all-names']}[config]
+                both = config not in c01.CONFIGS
                 path = os.path.join(d, 'm%d.p8' % n)
                 p8file.to_file(carts.make_game({}, version=33, code_lines=[src]), path)
                 luaf = os.path.join(d, 'b%d.lua' % n)
@@ -337,9 +341,10 @@ def cli_batch(res):
                                       {'cli': what, 'src': src, 'config': config})
                         continue
                     r = ShardResult()
-                    check_program_map(None, src, config, r, 'cli-' + what, out=code)
+                    check_program_map(None, src, 'keep_all' if both else config, r, 'cli-' + what, out=code)
                     for sig, v in r.violations.items():
-                        res.violation(sig.replace('C02|program|', 'C02|cli-%s|' % what, 1), v[0] + ' [via p8tool %s]' % what,
+                        res.violation(sig.replace('C02|program|', 'C02|cli-%s|' % what, 1) + ('|both-options' if both else ''),
+                                      v[0] + ' [via p8tool %s %s]' % (what, ' '.join(f for f in flags if f.startswith('--'))),
                                       {'cli': what, 'src': src, 'config': config})
                     r.violations = {}
                     res.merge(r)
